@@ -359,6 +359,30 @@ NCHILD = {"Concat": 2, "Alt": 3, "Group": 1, "LookAround": 1, "Repeat": 1, "Atom
 MUST_BE_HARD = {"LookAround", "Backref", "AtomicGroup", "KeepOut", "ContinueFromPreviousMatchEnd", "BackrefExistsCondition", "Conditional"}
 
 
+def _role_names(body):
+    """Rename the accumulators of Analyzer::visit to the names of the Info fields they end up in, and the analyser's
+    own two fields to group_ix / backrefs (by the role they play), whatever the source calls them."""
+    infos = [nd for nd in H.walk(body) if nd.get("k") == "Struct" and nd.get("adt", "").endswith("analyze::Info")]
+    if len(infos) != 1:
+        return body
+    loc, fld = {}, {}
+    for f in infos[0]["fields"]:
+        e = H.peel(f["e"])
+        if f["name"] in ("min_size", "const_size", "hard", "children", "start_group") and e.get("k") == "Path" and e.get("res") == "Local" and e["name"] != f["name"]:
+            loc[e["name"]] = f["name"]
+        if f["name"] == "end_group" and e.get("k") == "Field" and H.canon(e["e"]) == "self" and e["name"] != "group_ix":
+            fld[e["name"]] = "group_ix"
+    # the other field of the analyser is the set of referenced groups: the one `.contains(..)` is called on
+    for nd in H.walk(body):
+        if nd.get("k") == "MethodCall" and nd["name"] == "contains":
+            r = H.peel(nd["recv"])
+            if r.get("k") == "Field" and H.canon(r["e"]) == "self" and r["name"] != "backrefs":
+                fld[r["name"]] = "backrefs"
+    if not loc and not fld:
+        return body
+    return H.rename(body, loc, fld)
+
+
 def analyzer_rule(run, ctx):
     global LSETS
     if getattr(run, "tier", "quick") == "thorough":
@@ -370,7 +394,7 @@ def analyzer_rule(run, ctx):
     if fn is None:
         return
     w = H.where(fn)
-    body = fn["body"]
+    body = _role_names(fn["body"])
     # initial accumulator values
     init = {}
     for s in body.get("stmts", []):
@@ -591,7 +615,7 @@ def backref_validity(run, ctx):
     fn = S.get_fn(run, ctx, "analyze::Analyzer::visit", fam, label)
     if fn is None:
         return
-    ms = H.match_arms_on(fn["body"], "Expr")
+    ms = H.match_arms_on(_role_names(fn["body"]), "Expr")
     m = max(ms, key=lambda x: len(x["arms"]))
     conds = {}
     for arm in m["arms"]:
